@@ -120,6 +120,18 @@ pub fn check_ok_result(
         snap,
         &CertOpts { levels: Opts::ball(g, true), delaunay: true, convex: true, coverage: true, reference: true },
     );
+    // the library's in-sphere tolerance is absolute: below ~1e-5 every in-sphere determinant of the
+    // input is inside it (coordinate extent of the stored vertices)
+    let small_scale = {
+        let pts = snap.points();
+        let mut ext = 0.0f64;
+        for j in 0..d {
+            let lo = pts.iter().map(|p| p[j]).fold(f64::INFINITY, f64::min);
+            let hi = pts.iter().map(|p| p[j]).fold(f64::NEG_INFINITY, f64::max);
+            ext = ext.max(hi - lo);
+        }
+        ext < 1e-5
+    };
     let mut problems: Vec<(String, String, Vec<(&'static str, Value)>)> = cert
         .problems()
         .into_iter()
@@ -129,6 +141,14 @@ pub fn check_ok_result(
                 "nonconvex_boundary" => vec![
                     ("tiny_facet", Value::from(cert.convex_min_rel_facet < 1e-4)),
                     ("coplanar_input", Value::from(has_cohyperplanar_subset(input))),
+                    ("small_scale", Value::from(small_scale)),
+                ],
+                // overlapping / missing cover goes with a non-convex boundary: same discriminators
+                "coverage" => vec![
+                    ("nonconvex_also", Value::from(!cert.convex_decidable.is_empty())),
+                    ("tiny_facet", Value::from(cert.convex_min_rel_facet < 1e-4)),
+                    ("coplanar_input", Value::from(has_cohyperplanar_subset(input))),
+                    ("small_scale", Value::from(small_scale)),
                 ],
                 _ => vec![],
             };
